@@ -191,18 +191,11 @@ def gen_all():
     here = os.path.dirname(os.path.abspath(__file__))
     if here not in sys.path:
         sys.path.insert(0, here)
-    import gen_consts
+    import glob
     changed = []
-    for fname, text in gen_consts.generate().items():
-        if write_if_changed(fname, HEADER + text):
-            changed.append(fname)
-    for modname in ("gen_unicode", "gen_wordlists", "gen_coins", "gen_objects", "gen_entry"):
-        try:
-            mod = importlib.import_module(modname)
-        except ModuleNotFoundError as e:
-            if e.name == modname:
-                continue
-            raise
+    for path in sorted(glob.glob(os.path.join(here, "gen_*.py"))):
+        modname = os.path.basename(path)[:-3]
+        mod = importlib.import_module(modname)
         for fname, text in mod.generate().items():
             if write_if_changed(fname, HEADER + text):
                 changed.append(fname)
